@@ -10,7 +10,7 @@
    IndexMap<(u32,u32), Vec<SpacePoint>> is represented by the list of its keys (newest first;
    `values` reverses it, so iteration is in insertion order) and a finite map key -> Vec.
    Keys are never removed by the code (emptied bins stay in the map). *)
-From Coq Require Import FMapPositive.
+From Coq Require Import FMapPositive Permutation.
 From AG Require Import Base.Prelude Base.Res Recon.Vec.
 Local Open Scope nat_scope.
 
@@ -173,6 +173,15 @@ Section Spec.
   | conn_step x y z : conn c x y -> In z c -> link y z -> conn c x z.
   Definition connected (c : list point) : Prop := forall x y, In x c -> In y c -> conn c x y.
 End Spec.
+
+(* the invariant of the accumulator: every bin holds exactly the live points that vote for it, with
+   multiplicity (live = points added and not removed since) *)
+Section AccSpec.
+  Variable bins : point -> list bin.
+  Definition votes (b : bin) (p : point) : bool := existsb (Pos.eqb b) (bins p).
+  Definition Acc_inv (live : list point) (a : accum) : Prop :=
+    forall b, Permutation (acc_get a b) (filter (votes b) live).
+End AccSpec.
 
 (* reconstruction.rs:63-78: the public wrapper fixes min_num_points_per_cluster = 13
    (250 x 230 Hough bins and 3 cm are inside `bins` and `near`) *)
